@@ -12,15 +12,15 @@ CFG = dict(
         "fairness for close_returns: the goroutine the waiting call depends on is scheduled (stated as: thread 0 = client listen goroutine occurs 16 times / thread 3 = listener goroutine occurs 5 times in the continuation)",
         "reachable peer = the client can connect to the listener (reach && socket open) and performs one more exchange on its own (callsback: finite sleep); a server-side Close towards a client that never calls back stays pending (the property's 'reachable peer')",
         "one listen goroutine and one eventer goroutine per client session, one loop per server and listener, listener already registered with a running server loop (world0); Close racing Listen itself is covered by the oracle only",
-        "migration (stateMoving), proxies, Listener.Replace, user Shutdown callbacks, work hours / kill date timers are not modelled",
+        "migration (stateMoving), proxies, user Shutdown callbacks, work hours / kill date timers are not modelled",
         "Server.Close's wait (<-s.ch) and the wait for Session.lock are not proved to end (no theorem; the oracle watches them)",
     ],
-    level_text="Sixteen theorems over the Gallina interleaving model of the close paths (c2/session.go, vars.go, server.go, listener.go, types.go) for ALL schedules, ANY "
+    level_text="Seventeen theorems over the Gallina interleaving model of the close paths (c2/session.go, vars.go, server.go, listener.go, types.go) for ALL schedules, ANY "
                "number of concurrent close calls and all protocol-state flags, by induction on the schedule with a counting invariant: no channel is closed twice or while nil and no send hits a closed "
                "channel (full strength: no fault is reachable); closed is final; Session.Close and Listener.Close return under the stated fairness; "
-               "the closing client's last transmission carries SvShutdown, a server-side close queues it and its receipt closes the client; the server forgets the session. The seven defects found and repaired "
-               "(double close of s.ch, spinning eventer, send on closed send/wake, notice dropped on a context cancel, Remove's send racing Server.shutdown, Close racing the server start, shutdown waiting for a listener name already taken) are kept as refuted lemmas against the old step list "
-               "(the last two only as seeded regressions: they lie before the model's initial state). The model is tied to /repo by ~110 real teardown scenarios over TCP loopback whose abstract trace is compared with the model, and by racing groups "
+               "the closing client's last transmission carries SvShutdown, a server-side close queues it and its receipt closes the client; the server forgets the session. The eleven defects found and repaired "
+               "(double close of s.ch, spinning eventer, send on closed send/wake, notice dropped on a context cancel, Remove's send racing Server.shutdown, Close racing the server start, shutdown waiting for a listener name already taken, four around Listener.Replace / chanWake) are kept as refuted lemmas against the old step list "
+               "(those outside the model's step lists only as seeded regressions). The model is tied to /repo by ~110 real teardown scenarios over TCP loopback whose abstract trace is compared with the model, and by racing groups "
                "through the real receiveSingle.",
     level_note="Proof is about the model; the tie to the code is differential over sampled real schedules. No axioms.",
     partial="goroutine scheduling, timers and sockets are only sampled by the harness; the theorems cover every interleaving of the modelled atomic steps; the waits of Server.Close and of Session.lock have no termination theorem",
